@@ -297,3 +297,101 @@ def components_lattice(ctx):
     except NotReducible:
         ok = True
     ctx.ensure("non-degenerate-quadric-not-reducible", ok and not bool(nd.is_degenerate), witness="unit sphere")
+
+
+@case("C13", "constructors.lattice", [], kind="bounded", also=("C03",), share=True,
+      functions=["geometer.curve.Conic.from_tangent", "geometer.curve.Conic.from_foci", "geometer.curve.Conic.foci", "geometer.curve.Circle.center", "geometer.curve.Sphere.__init__",
+                 "geometer.curve.Ellipse.__init__", "geometer.curve.Cone.__init__", "geometer.curve.Cylinder.__init__"],
+      bound="spheres/circles/ellipses with INTEGER-typed centres and fractional radii (dtype handling), 24 points of each locus; from_tangent for the 24 orders of 4 circle points "
+            "and 3 tangents; from_foci for 6 ellipses/hyperbolas; cones/cylinders for the 26 lattice axis directions x 2 vertices x 2 radii")
+def constructors_lattice(ctx):
+    import math
+
+    import geometer as g
+    from geometer.curve import Sphere, Circle, Ellipse, Conic, Cone, Cylinder
+
+    def on(q, p, scale=1.0):
+        p = np.asarray(p, dtype=float)
+        return abs(p @ np.asarray(q.array, dtype=float) @ p) < 1e-7 * scale * float(np.abs(q.array).max())
+
+    angles = [2 * math.pi * k / 12 + 0.1 for k in range(12)]
+    for c in [(0, 0, 0), (1, 2, 3), (-2, 0, 5)]:
+        for r in (1, 2.5, 0.5, 1.5):
+            s = Sphere(g.Point(*c), r)
+            okp = all(on(s, [c[0] + r * math.cos(a) * math.cos(b), c[1] + r * math.sin(a) * math.cos(b), c[2] + r * math.sin(b), 1], 1 + r * r + sum(x * x for x in c))
+                      for a in angles[::2] for b in (-1.0, 0.0, 0.4, 1.2))
+            ctx.ensure("sphere:integer-centre-fractional-radius:locus", okp and not on(s, [c[0], c[1], c[2], 1]), witness=dict(center=c, radius=r, matrix=s.array.tolist()))
+            ctx.ensure("sphere:radius-volume-area-read-back", abs(s.radius - r) < 1e-9 and abs(s.volume - 4 / 3 * math.pi * r ** 3) < 1e-7 * (1 + r ** 3) and abs(s.area - 4 * math.pi * r * r) < 1e-7 * (1 + r * r),
+                       witness=dict(center=c, radius=r, got=(float(s.radius), float(s.volume), float(s.area))))
+    for c in [(0, 0), (3, -1)]:
+        for r in (1, 2.5, 0.5):
+            ci = Circle(g.Point(*c), r)
+            ctx.ensure("circle:integer-centre-fractional-radius:locus", all(on(ci, [c[0] + r * math.cos(a), c[1] + r * math.sin(a), 1], 1 + r * r + c[0] ** 2 + c[1] ** 2) for a in angles),
+                       witness=dict(center=c, radius=r))
+            ctx.ensure("circle:center-radius-area-read-back", np.allclose(np.real(ci.center.normalized_array[:2]), c, atol=1e-6) and abs(ci.radius - r) < 1e-9 and abs(ci.area - math.pi * r * r) < 1e-7 * (1 + r * r),
+                       witness=dict(center=c, radius=r))
+            e = Ellipse(g.Point(*c), r, 2 * r)
+            ctx.ensure("ellipse:locus", all(on(e, [c[0] + r * math.cos(a), c[1] + 2 * r * math.sin(a), 1], 1 + 4 * r * r + c[0] ** 2 + c[1] ** 2) for a in angles), witness=dict(center=c, radius=r))
+    cp = [(1, 0), (-1, 0), (0, -1), (0.6, -0.8)]
+    for tangent, kf in [(g.Line(0, 1, -1), None), (g.Line(3, 4, -5), None), (g.Line(2, 1, -4), None), (g.Line(1, 1, -3), ("KF-C13-2", None))]:
+        for order in itertools.permutations(range(4)):
+            P = [g.Point(*cp[i]) for i in order]
+            try:
+                co = Conic.from_tangent(tangent, *P)
+                ok = all(bool(co.contains(p)) for p in P) and bool(co.is_tangent(tangent))
+                got = "ok" if ok else np.asarray(co.array).tolist()
+            except Exception as e:
+                ok, got = False, "%s: %s" % (type(e).__name__, e)
+            ctx.ensure("from_tangent:contains-the-points-and-touches-the-line" + ("(known-bad-configuration)" if kf else ""), ok,
+                       witness=dict(tangent=tangent.array.tolist(), order=order, got=got), excuse=kf)
+    # representative independence of from_tangent (C03): negating / rescaling one defining point or the tangent
+    gp = [(1.0, 0.5), (-1.5, 0.25), (0.25, -1.0), (0.8, -0.9)]
+    for tangent in [g.Line(0.3, 1, -1.7), g.Line(3, 4, -9)]:
+        base = Conic.from_tangent(tangent, *[g.Point(*q) for q in gp])
+        for k in range(4):
+            for sc in (-1.0, 2.0, -0.5):
+                P = [g.Point(np.array([q[0], q[1], 1.0]) * (sc if i == k else 1.0)) for i, q in enumerate(gp)]
+                try:
+                    co = Conic.from_tangent(tangent, *P)
+                    ok = bool(co == base)
+                except Exception as e:
+                    ok = False
+                ctx.ensure("from_tangent:independent-of-the-representatives", ok, witness=dict(tangent=tangent.array.tolist(), point=k, scale=sc))
+        co = Conic.from_tangent(g.Line(-2 * tangent.array), *[g.Point(*q) for q in gp])
+        ctx.ensure("from_tangent:independent-of-the-representatives", bool(co == base), witness=dict(tangent="negated"))
+    for f1, f2, b in [((-1, 0), (1, 0), (0, 1)), ((0, 0), (4, 0), (2, 3)), ((1, 1), (3, 2), (0, 5)), ((-2, 1), (2, -1), (3, 3)), ((0, 0), (0, 6), (1, 3)), ((-1, 0), (1, 0), (3, 0.5))]:
+        try:
+            co = Conic.from_foci(g.Point(*f1), g.Point(*f2), g.Point(*b))
+            fo = co.foci
+            got = sorted(tuple(np.round(np.real(f.normalized_array[:2]), 6)) for f in fo)
+            ok = bool(co.contains(g.Point(*b))) and len(fo) == 2 and np.allclose(got, sorted([tuple(map(float, f1)), tuple(map(float, f2))]), atol=1e-5)
+        except Exception as e:
+            ok, got = False, "%s: %s" % (type(e).__name__, e)
+        ctx.ensure("from_foci:has-the-foci-and-passes-through-the-boundary-point", ok, witness=dict(f1=f1, f2=f2, bound=b, got=str(got)), excuse=("KF-C13-2", None))
+    dirs = [d for d in itertools.product((-1, 0, 1), repeat=3) if any(d)]
+    for d in dirs:
+        u = np.array(d, dtype=float) / np.linalg.norm(d)
+        # two unit vectors orthogonal to the axis
+        w = np.cross(u, [1, 0, 0]) if abs(u[0]) < 0.9 else np.cross(u, [0, 1, 0])
+        w = w / np.linalg.norm(w)
+        w2 = np.cross(u, w)
+        for v in [(0, 0, 0), (1, -2, 3)]:
+            for r in (1, 0.5):
+                V = np.array(v, dtype=float)
+                w_ = dict(vertex=v, axis=d, radius=r)
+                try:
+                    cone = Cone(g.Point(*v), g.Point(*(V + 2 * u)), r)
+                    okc = all(on(cone, list(V + h * u + (r * h / 2) * (math.cos(a) * w + math.sin(a) * w2)) + [1], 20) for h in (-1, 0.5, 2, 3) for a in angles[::3])
+                    okc = okc and not on(cone, list(V + 1.0 * u) + [1], 20)
+                except Exception as e:
+                    okc = False
+                    w_ = dict(w_, error="%s: %s" % (type(e).__name__, e))
+                ctx.ensure("cone:locus", okc, witness=w_, excuse=("KF-C13-1", None))
+                try:
+                    cyl = Cylinder(g.Point(*v), g.Point(*d), r)
+                    oky = all(on(cyl, list(V + h * u + r * (math.cos(a) * w + math.sin(a) * w2)) + [1], 20) for h in (-2, 0, 1.5) for a in angles[::3])
+                    oky = oky and not on(cyl, list(V + 0.7 * u) + [1], 20)
+                except Exception as e:
+                    oky = False
+                    w_ = dict(w_, error="%s: %s" % (type(e).__name__, e))
+                ctx.ensure("cylinder:locus", oky, witness=w_, excuse=("KF-C13-1", None))
